@@ -159,7 +159,7 @@ def run_case_symbolic(contract, case, timeout_ms=20000, seed=0, max_models=3):
             out = Outcome(exc=e)
         if not canary["done"]:
             canary["done"] = True
-            canary["ok"] = p.prove(False)[0] == "sat"
+            canary["ok"] = p.prove(False)[0] != "unsat"  # unsat == contradictory requires
         conds = contract.post(case, ghost, out)
         for name, cond in conds.items():
             st = clauses.setdefault(name, {"paths": 0, "unsat": 0, "sat": 0, "unknown": 0})
@@ -232,6 +232,12 @@ def _short(x):
 def bounded_subprocess(modname, cname, case, samples, seed=0, timeout=600):
     return replay_subprocess(modname, cname, case, None, timeout=timeout,
                              extra={"mode": "bounded", "samples": samples, "seed": seed})
+
+
+def batch_subprocess(modname, cname, cases, samples, seed=0, timeout=1800):
+    return replay_subprocess(modname, cname, None, None, timeout=timeout,
+                             extra={"mode": "bounded-batch", "cases": cases, "samples": samples,
+                                    "seed": seed})
 
 
 def replay_subprocess(modname, cname, case, values, timeout=120, extra=None):
